@@ -63,3 +63,374 @@ Proof.
   apply andb_true_iff in G. destruct G as [G G3]. apply andb_true_iff in G. destruct G as [G1 G2].
   rewrite !negb_true_iff in *. tauto.
 Qed.
+
+(* ---- numbers and durations *)
+Lemma scan_number_app ds X : forallb is_digit ds = true -> ds <> [] -> stops is_digit X -> scan_number (ds ++ X) = Some (ds, X).
+Proof.
+  intros Hd Hne Hx. unfold scan_number. rewrite (take_while_app is_digit ds X Hd Hx). destruct ds; [contradiction | reflexivity].
+Qed.
+
+(* a canonical duration: digits, optional %digits, dots, optional grace / appoggiatura mark *)
+Record cdur := { cd_num : chars; cd_frac : option chars; cd_dots : nat; cd_grace : string }.
+
+Definition grace_ok (g : string) : bool := mem_str g [""; "q"; "qq"; "p"; "P"]%string.
+
+Definition dur_ok (d : cdur) : Prop :=
+  forallb is_digit (cd_num d) = true /\ cd_num d <> [] /\
+  match cd_frac d with Some f => forallb is_digit f = true /\ f <> [] | None => True end /\
+  grace_ok (cd_grace d) = true.
+
+Definition modern_chars (d : cdur) : chars :=
+  cd_num d ++ match cd_frac d with Some f => "%"%char :: f | None => [] end.
+Definition print_dur (d : cdur) : chars :=
+  modern_chars d ++ repeat "."%char (cd_dots d) ++ chars_of_string (cd_grace d).
+Definition dur_tokens (d : cdur) : list string :=
+  str (modern_chars d) :: repeat "."%string (cd_dots d) ++ (if String.eqb (cd_grace d) "" then [] else [cd_grace d]).
+
+(* what may follow a duration in canonical text: a pitch letter or the rest letter *)
+Definition after_dur (X : chars) : Prop :=
+  match X with c :: _ => is_pitch_letter c = true \/ c = "r"%char | [] => False end.
+
+Lemma after_dur_head X : after_dur X -> exists c X', X = c :: X' /\ is_digit c = false /\ Ascii.eqb c "%" = false /\
+  Ascii.eqb "." c = false /\ Ascii.eqb c "q" = false /\ Ascii.eqb c "p" = false /\ Ascii.eqb c "P" = false.
+Proof.
+  destruct X as [|c X']; [contradiction|]. intros [H|H].
+  - exists c, X'. split; [reflexivity|]. destruct (pitch_props c H) as [_ [Hd Hs]].
+    assert (G : forallb (fun c => implb (is_pitch_letter c) (negb (Ascii.eqb c "%") && negb (Ascii.eqb "." c) && negb (Ascii.eqb c "q")
+                                        && negb (Ascii.eqb c "p") && negb (Ascii.eqb c "P"))) all_bytes = true) by (vm_compute; reflexivity).
+    pose proof (byte_lift _ G c) as G'. cbv beta in G'. rewrite H in G'. simpl in G'.
+    repeat (apply andb_true_iff in G'; destruct G' as [G' ?]). rewrite !negb_true_iff in *. repeat split; assumption.
+  - subst c. exists "r"%char, X'. repeat split; reflexivity.
+Qed.
+
+Lemma map_dots n : map (fun _ : ascii => "."%string) (repeat "."%char n) = repeat "."%string n.
+Proof. induction n; simpl; congruence. Qed.
+
+Lemma forallb_repeat {A} (p : A -> bool) x n : p x = true -> forallb p (repeat x n) = true.
+Proof. intros H. induction n; simpl; [reflexivity | now rewrite H]. Qed.
+
+Lemma grace_cases g : grace_ok g = true -> g = ""%string \/ g = "q"%string \/ g = "qq"%string \/ g = "p"%string \/ g = "P"%string.
+Proof.
+  unfold grace_ok. simpl. rewrite !orb_true_iff. intros [H|[H|[H|[H|[H|H]]]]]; try discriminate; apply String.eqb_eq in H; tauto.
+Qed.
+
+(* the dots and the grace mark, once the modern duration has been read *)
+Lemma dots_and_grace m dots g X c X' : X = c :: X' -> Ascii.eqb "." c = false -> Ascii.eqb c "q" = false ->
+  Ascii.eqb c "p" = false -> Ascii.eqb c "P" = false -> grace_ok g = true ->
+  (let '(ds, r4) := take_while (Ascii.eqb ".") (repeat "."%char dots ++ chars_of_string g ++ X) in
+   let base := str m :: map (fun _ : ascii => "."%string) ds in
+   match r4 with
+   | c1 :: r5 =>
+     if Ascii.eqb c1 "q" then
+       match r5 with
+       | c2 :: r6 => if Ascii.eqb c2 "q" then Some (base ++ ["qq"%string], r6) else Some (base ++ ["q"%string], r5)
+       | [] => Some (base ++ ["q"%string], r5)
+       end
+     else if Ascii.eqb c1 "p" then Some (base ++ ["p"%string], r5)
+     else if Ascii.eqb c1 "P" then Some (base ++ ["P"%string], r5)
+     else Some (base, r4)
+   | [] => Some (base, r4)
+   end) = Some (str m :: repeat "."%string dots ++ (if String.eqb g "" then [] else [g]), X).
+Proof.
+  intros EX Hdot Hq Hp HP Hg.
+  assert (Hstop : stops (Ascii.eqb ".") (chars_of_string g ++ X)).
+  { destruct (grace_cases g Hg) as [->|[->|[->|[->| ->]]]]; simpl; try reflexivity. rewrite EX. simpl. exact Hdot. }
+  rewrite (take_while_app (Ascii.eqb ".") (repeat "."%char dots) _ (forallb_repeat _ _ _ eq_refl) Hstop).
+  rewrite map_dots.
+  destruct (grace_cases g Hg) as [->|[->|[->|[->| ->]]]]; cbn [chars_of_string app String.eqb Ascii.eqb Bool.eqb].
+  - rewrite EX, Hq, Hp, HP. now rewrite app_nil_r.
+  - rewrite EX. rewrite Hq. reflexivity.
+  - reflexivity.
+  - reflexivity.
+  - reflexivity.
+Qed.
+
+Theorem scan_duration_print d X : dur_ok d -> after_dur X -> scan_duration (print_dur d ++ X) = Some (dur_tokens d, X).
+Proof.
+  intros [Hn [Hne [Hf Hg]]] HX. destruct (after_dur_head X HX) as [c [X' [EX [Hcd [Hcp [Hcdot [Hcq [Hcpp HcP]]]]]]]].
+  destruct d as [num frac dots g]. cbn [cd_num cd_frac cd_dots cd_grace] in *.
+  unfold scan_duration, print_dur, dur_tokens, modern_chars. cbn [cd_num cd_frac cd_dots cd_grace].
+  set (tail := repeat "."%char dots ++ chars_of_string g ++ X).
+  assert (Htail_nd : stops is_digit tail).
+  { unfold tail. destruct dots; simpl; [|reflexivity].
+    destruct (grace_cases g Hg) as [->|[->|[->|[->| ->]]]]; simpl; try reflexivity. rewrite EX. simpl. exact Hcd. }
+  replace (((num ++ match frac with Some f => "%"%char :: f | None => [] end) ++ repeat "."%char dots ++ chars_of_string g) ++ X)
+    with (num ++ (match frac with Some f => "%"%char :: f | None => [] end ++ tail))
+    by (unfold tail; rewrite <- !app_assoc; reflexivity).
+  destruct frac as [f|].
+  - destruct Hf as [Hfd Hfne].
+    rewrite (scan_number_app num _ Hn Hne) by reflexivity.
+    cbn [app]. rewrite Ascii.eqb_refl. rewrite (scan_number_app f tail Hfd Hfne Htail_nd).
+    unfold tail. exact (dots_and_grace _ dots g X c X' EX Hcdot Hcq Hcpp HcP Hg).
+  - cbn [app]. rewrite (scan_number_app num tail Hn Hne Htail_nd). rewrite ?app_nil_r.
+    assert (Hnot_pct : exists c0 r1, tail = c0 :: r1 /\ Ascii.eqb c0 "%" = false).
+    { unfold tail. destruct dots; simpl; [|eexists; eexists; split; reflexivity].
+      destruct (grace_cases g Hg) as [->|[->|[->|[->| ->]]]]; simpl; try (eexists; eexists; split; reflexivity).
+      rewrite EX. exists c, X'. split; [reflexivity | exact Hcp]. }
+    destruct Hnot_pct as [c0 [r1 [Et Hc0]]]. rewrite Et, Hc0, <- Et. unfold tail.
+    exact (dots_and_grace _ dots g X c X' EX Hcdot Hcq Hcpp HcP Hg).
+Qed.
+
+(* ---- accidentals *)
+Definition core_ok (core : chars) : bool :=
+  match core with
+  | [] => true
+  | c :: _ => ((Ascii.eqb c "#" && forallb (Ascii.eqb "#") core) || (Ascii.eqb c "-" && forallb (Ascii.eqb "-") core)) && Nat.leb (List.length core) 3
+              || (Ascii.eqb c "n" && Nat.eqb (List.length core) 1)
+  end.
+Definition disp_ok (disp : chars) : bool :=
+  match disp with
+  | [] => true
+  | [c] => is_display c
+  | [c1; c2] => (Ascii.eqb c1 "y" && Ascii.eqb c2 "y") || (Ascii.eqb c1 "Y" && Ascii.eqb c2 "Y")
+  | _ => false
+  end.
+
+(* what may follow an accidental in canonical text: nothing, or a stand-alone signifier that cannot be taken for (part of)
+   the display suffix *)
+Definition after_acc (core disp X : chars) : Prop :=
+  match X with
+  | [] => True
+  | c :: _ => is_note_deco c = true /\ (core <> [] -> disp = [] -> is_display c = false)
+  end.
+
+Lemma deco_char_facts c : is_note_deco c = true ->
+  Ascii.eqb "#" c = false /\ Ascii.eqb "-" c = false /\ Ascii.eqb c "#" = false /\ Ascii.eqb c "-" = false /\ Ascii.eqb c "n" = false
+  /\ Ascii.eqb c "y" = false /\ Ascii.eqb c "Y" = false /\ is_pitch_letter c = false /\ is_digit c = false.
+Proof.
+  intros H.
+  assert (G : forallb (fun c => implb (is_note_deco c) (negb (Ascii.eqb "#" c) && negb (Ascii.eqb "-" c) && negb (Ascii.eqb c "#") && negb (Ascii.eqb c "-")
+               && negb (Ascii.eqb c "n") && negb (Ascii.eqb c "y") && negb (Ascii.eqb c "Y") && negb (is_pitch_letter c) && negb (is_digit c))) all_bytes = true)
+    by (vm_compute; reflexivity).
+  pose proof (byte_lift _ G c) as G'. cbv beta in G'. rewrite H in G'. simpl in G'.
+  repeat (apply andb_true_iff in G'; destruct G' as [G' ?]). rewrite !negb_true_iff in *. repeat split; assumption.
+Qed.
+
+Lemma scan_acc_core_print core disp X : core_ok core = true -> disp_ok disp = true -> (core = [] -> disp = []) ->
+  after_acc core disp X -> scan_acc_core (core ++ disp ++ X) = Some (core, disp ++ X).
+Proof.
+  intros Hc Hd Hcd HX. unfold scan_acc_core.
+  destruct core as [|c core'].
+  - rewrite (Hcd eq_refl). cbn [app]. destruct X as [|x X']; [reflexivity|].
+    destruct HX as [Hx _]. destruct (deco_char_facts x Hx) as [_ [_ [E1 [E2 [E3 _]]]]]. rewrite E1, E2, E3. reflexivity.
+  - assert (Hstop : forall ch, (ch = "#"%char \/ ch = "-"%char) -> stops (Ascii.eqb ch) (disp ++ X)).
+    { intros ch Hch. destruct disp as [|d1 disp'].
+      - simpl. destruct X as [|x X']; [exact I|]. destruct HX as [Hx _]. destruct (deco_char_facts x Hx) as [E1 [E2 _]].
+        simpl. destruct Hch as [-> | ->]; assumption.
+      - simpl. assert (Hd1 : is_display d1 = true).
+        { destruct disp' as [|d2 [|d3 disp'']]; simpl in Hd; [exact Hd | | discriminate].
+          apply orb_true_iff in Hd. destruct Hd as [Hd|Hd]; apply andb_true_iff in Hd; destruct Hd as [Hd _]; apply Ascii.eqb_eq in Hd; subst; reflexivity. }
+        assert (G : forallb (fun c => implb (is_display c) (negb (Ascii.eqb "#" c) && negb (Ascii.eqb "-" c))) all_bytes = true) by (vm_compute; reflexivity).
+        pose proof (byte_lift _ G d1) as G'. cbv beta in G'. rewrite Hd1 in G'. simpl in G'. apply andb_true_iff in G'.
+        destruct G' as [G1 G2]. rewrite negb_true_iff in *. destruct Hch as [-> | ->]; assumption. }
+    unfold core_ok in Hc. apply orb_true_iff in Hc. destruct Hc as [Hc|Hc].
+    + apply andb_true_iff in Hc. destruct Hc as [Hrun Hlen]. apply orb_true_iff in Hrun. destruct Hrun as [Hrun|Hrun];
+        apply andb_true_iff in Hrun; destruct Hrun as [Hc0 Hall]; apply Ascii.eqb_eq in Hc0; subst c.
+      * change (("#"%char :: core') ++ disp ++ X) with ("#"%char :: (core' ++ disp ++ X)). cbv iota. rewrite Ascii.eqb_refl.
+        change ("#"%char :: core' ++ disp ++ X) with (("#"%char :: core') ++ disp ++ X).
+        rewrite (take_while_app (Ascii.eqb "#") ("#"%char :: core') (disp ++ X) Hall (Hstop _ (or_introl eq_refl))). rewrite Hlen. reflexivity.
+      * change (("-"%char :: core') ++ disp ++ X) with ("-"%char :: (core' ++ disp ++ X)). cbv iota.
+        replace (Ascii.eqb "-" "#") with false by reflexivity. rewrite Ascii.eqb_refl.
+        change ("-"%char :: core' ++ disp ++ X) with (("-"%char :: core') ++ disp ++ X).
+        rewrite (take_while_app (Ascii.eqb "-") ("-"%char :: core') (disp ++ X) Hall (Hstop _ (or_intror eq_refl))). rewrite Hlen. reflexivity.
+    + apply andb_true_iff in Hc. destruct Hc as [Hc0 Hlen]. apply Ascii.eqb_eq in Hc0. subst c.
+      destruct core' as [|? ?]; [|discriminate]. reflexivity.
+Qed.
+
+Lemma scan_acc_display_print core disp X : core <> [] -> disp_ok disp = true -> after_acc core disp X ->
+  scan_acc_display core (disp ++ X) = (core ++ disp, X).
+Proof.
+  intros Hne Hd HX. unfold scan_acc_display.
+  destruct disp as [|d1 [|d2 [|d3 disp']]]; simpl in Hd; try discriminate.
+  - cbn [app]. rewrite app_nil_r. destruct X as [|x X']; [reflexivity|]. destruct HX as [Hx Hnd].
+    rewrite (Hnd Hne eq_refl). reflexivity.
+  - cbn [app]. rewrite Hd. destruct (Ascii.eqb d1 "y" || Ascii.eqb d1 "Y") eqn:Ey; [|reflexivity].
+    destruct X as [|x X']; [reflexivity|]. destruct HX as [Hx _]. destruct (deco_char_facts x Hx) as [_ [_ [_ [_ [_ [Ey1 [Ey2 _]]]]]]].
+    apply orb_true_iff in Ey. destruct Ey as [Ey|Ey]; apply Ascii.eqb_eq in Ey; subst d1; [rewrite Ey1 | rewrite Ey2]; reflexivity.
+  - cbn [app]. apply orb_true_iff in Hd. destruct Hd as [Hd|Hd]; apply andb_true_iff in Hd; destruct Hd as [H1 H2];
+      apply Ascii.eqb_eq in H1; apply Ascii.eqb_eq in H2; subst d1 d2; cbn; first [reflexivity | rewrite <- app_assoc; reflexivity].
+Qed.
+
+Theorem scan_accidental_print core disp X : core_ok core = true -> disp_ok disp = true -> (core = [] -> disp = []) ->
+  after_acc core disp X -> scan_accidental (core ++ disp ++ X) = Some (core ++ disp, X).
+Proof.
+  intros Hc Hd Hcd HX. unfold scan_accidental. rewrite (scan_acc_core_print core disp X Hc Hd Hcd HX).
+  destruct core as [|c core'].
+  - rewrite (Hcd eq_refl). reflexivity.
+  - rewrite (scan_acc_display_print (c :: core') disp X ltac:(discriminate) Hd HX). reflexivity.
+Qed.
+
+(* ---- a whole note in canonical order *)
+Record cnote := { nt_dur : option cdur; nt_pitch : ascii; nt_oct : nat; nt_core : chars; nt_disp : chars; nt_decos : chars }.
+
+Definition note_ok (n : cnote) : Prop :=
+  match nt_dur n with Some d => dur_ok d | None => True end /\
+  is_pitch_letter (nt_pitch n) = true /\
+  core_ok (nt_core n) = true /\ disp_ok (nt_disp n) = true /\ (nt_core n = [] -> nt_disp n = []) /\
+  forallb is_note_deco (nt_decos n) = true /\ NoDup (nt_decos n) /\
+  (nt_core n <> [] -> nt_disp n = [] -> match nt_decos n with c :: _ => is_display c = false | [] => True end).
+
+Definition pitch_chars (n : cnote) : chars := repeat (nt_pitch n) (S (nt_oct n)).
+Definition acc_chars (n : cnote) : chars := nt_core n ++ nt_disp n.
+Definition print_note (n : cnote) : chars :=
+  match nt_dur n with Some d => print_dur d | None => [] end ++ pitch_chars n ++ acc_chars n ++ nt_decos n.
+
+Definition note_pd (n : cnote) : list subtoken :=
+  mk_durs (match nt_dur n with Some d => dur_tokens d | None => [] end)
+  ++ [{| st_enc := str (pitch_chars n); st_cat := PITCH |}]
+  ++ match acc_chars n with [] => [] | a => [{| st_enc := str a; st_cat := ALTERATION |}] end.
+
+Lemma add_decos_nodup : forall l acc, NoDup l -> (forall c, In c l -> ~ In (deco_of c) acc) -> all_deco acc ->
+  add_decos acc l = acc ++ map deco_of l.
+Proof.
+  induction l as [|c l IH]; intros acc Hn Hd Ha; simpl; [now rewrite app_nil_r|].
+  inversion Hn as [|? ? Hc Hn']; subst.
+  assert (E : existsb (fun s => String.eqb (st_enc s) (String c "")) acc = false).
+  { destruct (existsb _ acc) eqn:E; [|reflexivity]. apply (existsb_enc acc c Ha) in E. exfalso. apply (Hd c); [now left | exact E]. }
+  rewrite E. rewrite IH.
+  - rewrite <- app_assoc. reflexivity.
+  - exact Hn'.
+  - intros x Hx Hin. apply in_app_iff in Hin. destruct Hin as [Hin|[Hin|[]]].
+    + apply (Hd x); [now right | exact Hin].
+    + unfold deco_of in Hin. injection Hin as Hin. subst x. contradiction.
+  - intros s Hs. apply in_app_iff in Hs. destruct Hs as [Hs|[<-|[]]]; [apply Ha; exact Hs | now exists c].
+Qed.
+
+Lemma concat_dur_tokens d : dur_ok d -> chars_of_string (String.concat "" (dur_tokens d)) = print_dur d.
+Proof.
+  intros [_ [_ [_ Hg]]]. unfold dur_tokens, print_dur. destruct d as [num frac dots g]. cbn [cd_num cd_frac cd_dots cd_grace modern_chars] in *.
+  assert (Hcat : forall (l : list string) (s : string), chars_of_string (String.concat "" (s :: l)) = chars_of_string s ++ chars_of_string (String.concat "" l)).
+  { intros l s. destruct l as [|x l]; simpl; [now rewrite app_nil_r|]. now rewrite chars_of_string_app. }
+  rewrite Hcat. unfold str. rewrite chars_of_string_of_chars. f_equal.
+  assert (Hdots : forall k (tl : list string), chars_of_string (String.concat "" (repeat "."%string k ++ tl)) = repeat "."%char k ++ chars_of_string (String.concat "" tl)).
+  { induction k as [|k IH]; intros tl; [reflexivity|]. cbn [repeat app]. rewrite Hcat, IH. reflexivity. }
+  rewrite Hdots. f_equal. destruct (grace_cases g Hg) as [->|[->|[->|[->| ->]]]]; reflexivity.
+Qed.
+
+Lemma scan_note_tail_print n dtext durs : note_ok n ->
+  scan_note_tail {| ls_deco := []; ls_dur := [] |} [] dtext [] (pitch_chars n) durs (acc_chars n ++ nt_decos n) =
+  Some (dtext ++ pitch_chars n ++ acc_chars n ++ nt_decos n,
+        {| ls_deco := map deco_of (nt_decos n); ls_dur := match durs with Some ds => mk_durs ds | None => [] end |},
+        match durs with Some ds => mk_durs ds | None => [] end ++ [{| st_enc := str (pitch_chars n); st_cat := PITCH |}]
+        ++ match acc_chars n with [] => [] | a => [{| st_enc := str a; st_cat := ALTERATION |}] end, []).
+Proof.
+  intros [Hdur [Hp [Hc [Hd [Hcd [Hde [Hnd Hdisp]]]]]]]. unfold scan_note_tail, acc_chars. cbn [ls_deco ls_dur].
+  assert (Hdecos : add_decos [] (nt_decos n) = map deco_of (nt_decos n)).
+  { rewrite (add_decos_nodup (nt_decos n) [] Hnd); [reflexivity | intros c _ [] | intros s []]. }
+  destruct (nt_core n) as [|c core'] eqn:Ec.
+  - (* no accidental: the signifiers follow the pitch letters *)
+    rewrite (Hcd eq_refl). cbn [app]. rewrite (take_while_all is_note_deco (nt_decos n) Hde).
+    cbn [scan_accidental scan_acc_core take_while add_decos]. rewrite Hdecos. rewrite ?app_nil_r. reflexivity.
+  - (* an accidental: it stops the signifier run, the signifiers follow it *)
+    assert (Hc0 : is_note_deco c = false).
+    { unfold core_ok in Hc. apply orb_true_iff in Hc. destruct Hc as [Hc|Hc].
+      - apply andb_true_iff in Hc. destruct Hc as [Hc _]. apply orb_true_iff in Hc. destruct Hc as [Hc|Hc];
+          apply andb_true_iff in Hc; destruct Hc as [Hc _]; apply Ascii.eqb_eq in Hc; subst c; reflexivity.
+      - apply andb_true_iff in Hc. destruct Hc as [Hc _]. apply Ascii.eqb_eq in Hc. subst c. reflexivity. }
+    rewrite <- app_assoc. rewrite (take_while_none is_note_deco ((c :: core') ++ nt_disp n ++ nt_decos n)) by (simpl; exact Hc0).
+    assert (HX : after_acc (c :: core') (nt_disp n) (nt_decos n)).
+    { unfold after_acc. destruct (nt_decos n) as [|x xs] eqn:Ex; [exact I|].
+      simpl in Hde. apply andb_true_iff in Hde. destruct Hde as [Hx _]. split; [exact Hx|]. intros _ Hdn. exact (Hdisp ltac:(discriminate) Hdn). }
+    rewrite (scan_accidental_print (c :: core') (nt_disp n) (nt_decos n) Hc Hd ltac:(discriminate) HX).
+    rewrite (take_while_all is_note_deco (nt_decos n) Hde). cbn [add_decos]. rewrite Hdecos.
+    cbn [app]. rewrite ?app_nil_r. rewrite <- ?app_assoc. reflexivity.
+Qed.
+
+Theorem scan_note_print n : note_ok n ->
+  scan_note {| ls_deco := []; ls_dur := [] |} (print_note n) =
+  Some (print_note n, {| ls_deco := map deco_of (nt_decos n); ls_dur := mk_durs (match nt_dur n with Some d => dur_tokens d | None => [] end) |},
+        note_pd n, []).
+Proof.
+  intros Hok. pose proof Hok as [Hdur [Hp [Hc [Hd [Hcd [Hde [Hnd Hdisp]]]]]]].
+  destruct (pitch_props _ Hp) as [Hp_nd [Hp_ndig Hp_ns]].
+  assert (Hafter : after_dur (pitch_chars n ++ acc_chars n ++ nt_decos n)) by (unfold pitch_chars; simpl; left; exact Hp).
+  (* the tail after the pitch letters *)
+  set (tail := acc_chars n ++ nt_decos n).
+  assert (Htail_stop : stops (Ascii.eqb (nt_pitch n)) tail /\ match tail with q :: _ => is_pitch_letter q = false | [] => True end).
+  { unfold tail, acc_chars. destruct (nt_core n) as [|c core'] eqn:Ec.
+    - rewrite (Hcd eq_refl). cbn [app]. destruct (nt_decos n) as [|x xs]; [split; exact I|].
+      simpl in Hde. apply andb_true_iff in Hde. destruct Hde as [Hx _]. destruct (deco_char_facts x Hx) as [_ [_ [_ [_ [_ [_ [_ [Hxp _]]]]]]]].
+      split; [|exact Hxp]. simpl. destruct (Ascii.eqb (nt_pitch n) x) eqn:E; [|reflexivity]. apply Ascii.eqb_eq in E. subst x. congruence.
+    - cbn [app]. assert (Hc0 : c = "#"%char \/ c = "-"%char \/ c = "n"%char).
+      { unfold core_ok in Hc. apply orb_true_iff in Hc. destruct Hc as [Hc|Hc].
+        - apply andb_true_iff in Hc. destruct Hc as [Hc _]. apply orb_true_iff in Hc. destruct Hc as [Hc|Hc];
+            apply andb_true_iff in Hc; destruct Hc as [Hc _]; apply Ascii.eqb_eq in Hc; auto.
+        - apply andb_true_iff in Hc. destruct Hc as [Hc _]. apply Ascii.eqb_eq in Hc. auto. }
+      assert (Hnp : is_pitch_letter c = false) by (destruct Hc0 as [->|[->| ->]]; reflexivity).
+      split; [|exact Hnp]. simpl. destruct (Ascii.eqb (nt_pitch n) c) eqn:E; [|reflexivity]. apply Ascii.eqb_eq in E. subst c. congruence. }
+  destruct Htail_stop as [Hstop Hbad].
+  unfold scan_note. cbn [ls_deco ls_dur].
+  (* leading signifiers: none *)
+  assert (Hfirst : stops is_note_deco (print_note n)).
+  { unfold print_note. destruct (nt_dur n) as [d|].
+    - destruct Hdur as [Hn [Hne _]]. unfold print_dur, modern_chars. destruct (cd_num d) as [|x xs]; [contradiction|].
+      simpl in Hn. apply andb_true_iff in Hn. destruct Hn as [Hx _]. destruct (digit_props x Hx) as [Hx' _]. simpl. exact Hx'.
+    - simpl. exact Hp_nd. }
+  rewrite (take_while_none is_note_deco _ Hfirst).
+  unfold print_note at 1 2 3 4.
+  destruct (nt_dur n) as [d|] eqn:Edur.
+  - (* with a duration *)
+    rewrite (scan_duration_print d _ Hdur Hafter).
+    rewrite (take_while_none is_note_deco (pitch_chars n ++ acc_chars n ++ nt_decos n)) by (unfold pitch_chars; simpl; exact Hp_nd).
+    unfold pitch_chars at 1 2. cbn [repeat app]. rewrite Hp. cbn [negb].
+    change (nt_pitch n :: repeat (nt_pitch n) (nt_oct n) ++ acc_chars n ++ nt_decos n) with (pitch_chars n ++ tail).
+    rewrite (take_while_app (Ascii.eqb (nt_pitch n)) (pitch_chars n) tail) by (first [apply forallb_repeat; apply Ascii.eqb_refl | exact Hstop]).
+    replace (match tail with q :: _ => is_pitch_letter q | [] => false end) with false by (destruct tail; [reflexivity | symmetry; exact Hbad]).
+    rewrite (concat_dur_tokens d Hdur). unfold tail. rewrite (scan_note_tail_print n (print_dur d) (Some (dur_tokens d)) Hok).
+    unfold note_pd, print_note. rewrite Edur. rewrite <- ?app_assoc. reflexivity.
+  - (* without duration *)
+    assert (Epn : print_note n = pitch_chars n ++ acc_chars n ++ nt_decos n) by (unfold print_note; rewrite Edur; reflexivity).
+    rewrite ?Epn. rewrite ?app_nil_l.
+    assert (Hnum : scan_duration (pitch_chars n ++ acc_chars n ++ nt_decos n) = None).
+    { unfold scan_duration, scan_number, pitch_chars. cbn [repeat app take_while]. rewrite Hp_ndig. reflexivity. }
+    rewrite Hnum.
+    replace (match pitch_chars n ++ acc_chars n ++ nt_decos n with c :: _ => is_digit c | [] => false end) with false
+      by (unfold pitch_chars; simpl; symmetry; exact Hp_ndig).
+    rewrite (take_while_none is_note_deco (pitch_chars n ++ acc_chars n ++ nt_decos n)) by (unfold pitch_chars; simpl; exact Hp_nd).
+    unfold pitch_chars at 1 2. cbn [repeat app]. rewrite Hp. cbn [negb].
+    change (nt_pitch n :: repeat (nt_pitch n) (nt_oct n) ++ acc_chars n ++ nt_decos n) with (pitch_chars n ++ tail).
+    rewrite (take_while_app (Ascii.eqb (nt_pitch n)) (pitch_chars n) tail) by (first [apply forallb_repeat; apply Ascii.eqb_refl | exact Hstop]).
+    replace (match tail with q :: _ => is_pitch_letter q | [] => false end) with false by (destruct tail; [reflexivity | symmetry; exact Hbad]).
+    unfold tail. rewrite (scan_note_tail_print n [] None Hok). unfold note_pd. rewrite Edur. reflexivity.
+Qed.
+
+(* ---- the recogniser on the canonical text of a note: the whole text is consumed and the token is exactly the note *)
+Definition note_token (n : cnote) : token :=
+  TNoteRest {| nr_enc := str (print_note n); nr_pd := note_pd n; nr_deco := map deco_of (nt_decos n) |}.
+
+Lemma print_note_head n : note_ok n -> exists c r, print_note n = c :: r /\ (is_digit c = true \/ is_pitch_letter c = true).
+Proof.
+  intros [Hdur [Hp _]]. unfold print_note. destruct (nt_dur n) as [d|].
+  - destruct Hdur as [Hn [Hne _]]. unfold print_dur, modern_chars. destruct (cd_num d) as [|x xs]; [contradiction|].
+    simpl in Hn. apply andb_true_iff in Hn. destruct Hn as [Hx _]. eexists; eexists. split; [reflexivity | left; exact Hx].
+  - unfold pitch_chars. simpl. eexists; eexists. split; [reflexivity | right; exact Hp].
+Qed.
+
+Theorem recognise_print n : note_ok n -> kern_recognise (str (print_note n)) = KTok (note_token n).
+Proof.
+  intros Hok. destruct (print_note_head n Hok) as [c [r [E Hc]]].
+  assert (Hs : in_chars "#-n%.qpPr =*" c = false) by (destruct Hc as [Hc|Hc]; [apply (digit_props c Hc) | apply (pitch_props c Hc)]).
+  assert (Hstar : Ascii.eqb c "*" = false /\ Ascii.eqb c "=" = false /\ Ascii.eqb c "." = false).
+  { assert (G : forallb (fun c => implb (negb (in_chars "#-n%.qpPr =*" c)) (negb (Ascii.eqb c "*") && negb (Ascii.eqb c "=") && negb (Ascii.eqb c "."))) all_bytes = true)
+      by (vm_compute; reflexivity).
+    pose proof (byte_lift _ G c) as G'. cbv beta in G'. rewrite Hs in G'. simpl in G'.
+    apply andb_true_iff in G'. destruct G' as [G' G3]. apply andb_true_iff in G'. destruct G' as [G1 G2]. rewrite !negb_true_iff in *. tauto. }
+  destruct Hstar as [H1 [H2 H3]].
+  unfold kern_recognise. rewrite E. unfold str at 1 2 3 4. cbn [string_of_chars].
+  assert (Hdot : String.eqb (String c (string_of_chars r)) "." = false).
+  { simpl. rewrite H3. reflexivity. }
+  rewrite Hdot, H1, H2. unfold scan_notes. cbn [chars_of_string]. rewrite chars_of_string_of_chars. rewrite <- E.
+  cbn [scan_elements]. unfold scan_note_or_rest. rewrite (scan_note_print n Hok). cbn [map]. unfold note_token.
+  rewrite E. reflexivity.
+Qed.
+
+(* non-vacuity: concrete canonical notes meet the hypotheses *)
+Example note_ok_example :
+  note_ok {| nt_dur := Some {| cd_num := chars_of_string "16"; cd_frac := None; cd_dots := 1; cd_grace := "q" |};
+             nt_pitch := "d"; nt_oct := 1; nt_core := chars_of_string "##"; nt_disp := chars_of_string "X"; nt_decos := chars_of_string ";JL" |} /\
+  str (print_note {| nt_dur := Some {| cd_num := chars_of_string "16"; cd_frac := None; cd_dots := 1; cd_grace := "q" |};
+             nt_pitch := "d"; nt_oct := 1; nt_core := chars_of_string "##"; nt_disp := chars_of_string "X"; nt_decos := chars_of_string ";JL" |}) = "16.qdd##X;JL"%string.
+Proof.
+  split; [|reflexivity]. unfold note_ok, dur_ok. cbn. repeat split; try reflexivity; try discriminate;
+    try (repeat constructor; simpl; intuition discriminate); try (intros; discriminate).
+Qed.
